@@ -515,6 +515,7 @@ func (g *gen) credSpecs(sch *schemaInfo) []credSpec {
 	}
 	if sch.Label != "kyc-v3" {
 		specs = append(specs, credSpec{Schema: sch, Subject: did, Expiration: i64(2000000000), NoSubjectType: true, Status: 1, Variant: 5})
+		specs = append(specs, credSpec{Schema: sch, Subject: did2, Zero: true, Variant: 6})
 	}
 	return specs
 }
